@@ -12,7 +12,9 @@
     U <node> <now>      | <obsA> | <obsB>
     X <node> <obj> <now>| <obsA> | <obsB>        two overlapping authority runs = one
     N <node> <now>      | <obsA> | <obsB>        notification requested
-    D <node> <obj> <now>| <obsA> | <obsB>        object <obj> due for a check
+    D <node> <obj> <now>| <obsA> | <obsB>        object <obj> due for a check   (F: the same, its command held in flight until R)
+    R <node> <now>      | <obsA> | <obsB>        held check released
+    E <node> <peer> <b> | <obsA> | <obsB>        local endpoint state other than "connected" scrambled
     T <node> <now>      | f=<seq> <obs>... | f=- <obs>     seq over a (authority timer) / n (notification timer), or -
   Output: MISMATCH / SPECFAIL / BADLINE lines and a final STATS line.
 -/
@@ -100,6 +102,9 @@ structure DSt where
   notifExecs : Nat := 0
   checkExecs : Nat := 0
   silentChecks : Nat := 0
+  releases : Nat := 0
+  held : Nat := 0
+  endpointScrambles : Nat := 0
   casesN : Nat := 0
   casesS : Nat := 0
   casesP : Nat := 0
@@ -225,6 +230,17 @@ def applyEvent (d : DSt) (s : Side) (op : String) (pre : List String) : Option (
       let d := setNode d s (some (node.request d.cfgs.toList))
       some ({ d with requests := d.requests + 1 }, fun _ => Ev.request s)
     | none => some (d, fun _ => Ev.idle s)
+  | "R", [_, _, _now] => some ({ d with releases := d.releases + 1 }, fun _ => Ev.idle s)
+  -- local endpoint state other than "connected": no part of the model, must change nothing
+  | "E", [_, _, _peer, _bits] => some ({ d with endpointScrambles := d.endpointScrambles + 1 }, fun _ => Ev.idle s)
+  | "F", [_, _, idx, _now] =>
+    -- a due check whose command is held in flight: for the property the same as D
+    match parseNat? idx, getNode d s with
+    | some idx, some node =>
+      let d := setNode d s (some (node.due d.cfgs.toList idx))
+      some ({ d with dues := d.dues + 1, held := d.held + 1 }, fun i => if i == idx then Ev.due s else Ev.idle s)
+    | some _, none => some (d, fun _ => Ev.idle s)
+    | none, _ => none
   | "D", [_, _, idx, _now] =>
     match parseNat? idx, getNode d s with
     | some idx, some node =>
@@ -372,4 +388,4 @@ def handle (d : DSt) (n : Nat) (line : String) : IO DSt := do
 def main : IO Unit := do
   let stdin ← IO.getStdin
   let d ← foldLines stdin handle ({} : DSt)
-  IO.println s!"STATS cases={d.caseNo} steps={d.steps} updates={d.updates} timer_fired={d.timerFired} timer_idle={d.timerIdle} boots={d.boots} links={d.links} hashes={d.hashes} hashes_with_negative_char={d.hashNeg} objects={d.objects} object_observations={d.objChecks} verdict_keep={d.vKeep} verdict_true={d.vTrue} verdict_false={d.vFalse} settled_rows={d.settledRows} races={d.races} requests={d.requests} notification_timer_runs={d.ntimers} due_checks={d.dues} work_events_on_paused_object={d.silentChecks} cases_nozone={d.casesN} cases_single={d.casesS} cases_pair={d.casesP} cases_pair_extra={d.casesExtra} nontrivial={d.nontrivial} mismatches={d.mismatches} specfails={d.specfails}"
+  IO.println s!"STATS cases={d.caseNo} steps={d.steps} updates={d.updates} timer_fired={d.timerFired} timer_idle={d.timerIdle} boots={d.boots} links={d.links} hashes={d.hashes} hashes_with_negative_char={d.hashNeg} objects={d.objects} object_observations={d.objChecks} verdict_keep={d.vKeep} verdict_true={d.vTrue} verdict_false={d.vFalse} settled_rows={d.settledRows} races={d.races} requests={d.requests} notification_timer_runs={d.ntimers} due_checks={d.dues} work_events_on_paused_object={d.silentChecks} checks_held_in_flight={d.held} endpoint_state_scrambles={d.endpointScrambles} cases_nozone={d.casesN} cases_single={d.casesS} cases_pair={d.casesP} cases_pair_extra={d.casesExtra} nontrivial={d.nontrivial} mismatches={d.mismatches} specfails={d.specfails}"
